@@ -123,6 +123,7 @@ def generic_run(ctx, compare, oracle_props, micro_prefixes=None, known_ids=(), e
     cov["corr_wall_s"] = round(time.time() - t0, 1)
     cov["input_distribution"] = distribution(progs)
     ndiff = 0
+    ncorr_reported = 0
     nstruct = 0
     facts = {"envs": 0, "approved": 0, "unsupported": 0, "facts": 0}
     distinct = set()
@@ -151,14 +152,17 @@ def generic_run(ctx, compare, oracle_props, micro_prefixes=None, known_ids=(), e
             ctx["violations"].append((f"{name}: {x['what']}", {"kind": "property-oracle", "program": text, "env": x["env"], "trace_blocks": x["trace_blocks"], "stream": meta["stream"]}))
         if d:
             ndiff += 1
-            if not bad_oracle:
+            if not bad_oracle and ncorr_reported < 4:
+                ncorr_reported += 1
                 small = text
                 try:
                     small = shrink(text, lambda t: differs(t, compare))
                 except Exception:  # pylint: disable=broad-except
                     pass
                 ctx["broken"].append(f"correspondence model/implementation on {name}: {d[0][:300]} || minimal program: {small!r}")
-            if len(ctx["broken"]) + len(ctx["violations"]) > 5:
+            # keep searching the later disagreements for an input on which the property itself fails (the oracle runs on
+            # every disagreement); stop once a few failing inputs are in hand or after many disagreements
+            if len(ctx["violations"]) >= 3 or ndiff > 120:
                 break
     cov["input_samples"] = [{"id": n_, "program": t_} for n_, t_, _m, _a, _b in (results[len(results) // 3:len(results) // 3 + 1] + results[-1:])]
     cov["traces_validated_against_impl"] = len(results)
